@@ -28,6 +28,10 @@ C['C09'] = dict(level=TV, engine='E1+E2', design='§2 C09',
    technique='SMT one-period inductive equivalence of emitted SIM/SIMEX1/PC systems with the book recursion (parameters symbolic); symbolic execution of the hand-coded iterative SIM',
    text='For SIM, SIMEX1 and PC built by the bundled builders, the emitted equations together with the book recursion (written independently) entail equality of Y, T, YD, C, V, B, H for all admissible parameters, G, r and lagged stocks (goal-split unsat queries); the real ModelSIMiterative.RunStep is executed symbolically over all paths for G in [0,100], H in [-100,100] on a parameter grid with the closed-form error bound as post-condition.',
    note='Admissibility assumptions listed in evidence; parameter transport (%0.4f) checked concretely; numerical series agreement is C02 + this.')
+C['C18'] = dict(level=TV, engine='E1', design='§2 C18',
+   technique='SMT equivalence of emitted systems under a harness-computed renaming / country-prefix map; isolation read off the emitted text',
+   text='Single-zone topologies are built under four injective renamings of country/sector/market codes and the renamed system must be the renamed image of the default one (same variable sets; equations equivalent over all reals). Sets of 2-3 economies with distinct currencies (zoo economies, federations, and the bundled SIM/SIMEX1/PC/REG builders), with and without an unused ExternalSector, are built jointly and alone: the joint system restricted to each economy must equal the prefixed stand-alone system and mention no variable of another economy.',
+   note="Renaming map and prefix map are computed by the harness from the documented naming convention/object API. Don't-care: government classes' constructor-declared DEM_GOOD/PRIM_BAL when the goods market is renamed; model-level time axis t.")
 PENDING = {}
 ALL = ['C%02d' % i for i in range(1, 21)]
 checks = []
